@@ -138,7 +138,7 @@ class NumKernel(BaseKernel):
     """Floating point interpretation on the real numpy."""
     mode = "num"
 
-    def __init__(self, repo, point=None, seed=0, rtol=1e-8, atol=1e-9):
+    def __init__(self, repo, point=None, seed=0, rtol=1e-9, atol=1e-10):
         super().__init__(repo)
         self.point = dict(point) if point else {}
         self.given = point is not None
